@@ -234,3 +234,17 @@ package layout
 //@     invariant len(bands) == entry(len(bands)) && !found && bandsum(bands, len(bands)) == wsum(fragments, $i2)
 //@   loop 2:
 //@     invariant lsum(lines, len(lines)) == bandsum(bands, $i)
+
+// spanning lines that look like stray body text go back to the regular fragments: nothing is lost on the way
+//@ func filterStraySpanningContent results (sp, rec)
+//@   property C09
+//@   ensures conserved: wsum(sp, len(sp)) + wsum(rec, len(rec)) == wsum(spanning, len(spanning))
+//@   loop 1:
+//@     invariant wsum(filteredSpanning, len(filteredSpanning)) + wsum(recoveredRegular, len(recoveredRegular)) == lsum(spanningLines, $i)
+
+// every fragment is either regular (belongs to one column) or spanning, never both and never neither
+//@ func (*ColumnDetector) separateSpanningFragments results (regular, spanning)
+//@   property C09
+//@   ensures conserved: wsum(regular, len(regular)) + wsum(spanning, len(spanning)) == wsum(fragments, len(fragments))
+//@   loop 1:
+//@     invariant wsum(regular, len(regular)) + wsum(spanning, len(spanning)) == lsum(lines, $i)
